@@ -27,6 +27,8 @@ def emit(prog):
     n = len(prog["objs"])
     params = ", ".join(f"a{i}" for i in range(n))
     L = ["from vf.c14_lib import *",
+         "g = Range(0, 1)",  # a global read by behaviors: re-bound to its sampled value per run
+         "param gp = g",
          "class Foo(Object):",
          "    cnt[dynamic]: 0",
          "    foo: 1",
@@ -41,17 +43,17 @@ def emit(prog):
         L += ["    try:",
               "        while True:",
               '            FAULT("beh")',
-              "            take Act(v)",
+              "            take Act(v + g)",
               '    interrupt when FAULT("int") and simulation().currentTime % 3 == 2:',
               "        take Act(0 - v)"]
     else:
         L += ["    while True:",
               '        FAULT("beh")',
-              "        take Act(v)"]
+              "        take Act(v + g)"]
     L += ["behavior Alt():",
           "    while True:",
           '        FAULT("beh2")',
-          "        take Act(5)"]
+          "        take Act(Range(4, 5))"]
     if prog["mon"]:
         L += ["monitor Mon():",
               "    while True:",
@@ -65,7 +67,8 @@ def emit(prog):
         for obj, specs in sub["ovr"]:
             sp = ", ".join(f"with behavior Alt()" if p == "behavior" else f"with {p} {v}"
                            for p, v in specs)
-            L.append(f"        override a{obj} {sp}")
+            # object 0 has random properties: only `ego` names its sampled version at run time
+            L.append(f"        override {'ego' if obj == 0 else f'a{obj}'} {sp}")
         L.append(f"        terminate after {sub['life']} steps")
         if sub["compose"] is not None:
             L.append("    compose:")
@@ -80,7 +83,8 @@ def emit(prog):
     L.append("scenario Main():")
     L.append("    setup:")
     for i, o in enumerate(prog["objs"]):
-        pos = f"({10 * i}, 0)" if m2d else f"({10 * i}, 0, 0)"
+        x = "Range(0, 1)" if i == 0 else str(10 * i)
+        pos = f"({x}, 0)" if m2d else f"({x}, 0, 0)"
         beh = f", with behavior Base({i + 1})" if o["beh"] else ""
         L.append(f"        a{i} = new Foo at {pos}{beh}, with requireVisible False, "
                  f"with allowCollisions True")
